@@ -26,7 +26,8 @@ RULE = ('repeated hits (3-12 per case, varying locals) of a tracepoint placed in
 ASSUMPTIONS = ['conditions are boolean-valued or failing; expressions are side-effect free',
                'an error result may be carried either in the error field or as a result typed as the exception']
 REQUIRE = {'hits_checked': 3000, 'rejected_then_due': 150, 'failing_conditions': 100, 'global_scope_exprs': 150,
-           'agent_name_exprs': 50, 'module_level_cases': 20, 'closure_cases': 20}
+           'agent_name_exprs': 50, 'module_level_cases': 20, 'closure_cases': 20,
+           'padded_expression_cases': 80}
 T0 = 1_700_000_000_000_000_000
 MS = 1_000_000
 
@@ -131,6 +132,13 @@ def case_cond(seed, out, spec, wd):
     if place == 'method':
         pool += EXPRS_METH * 3
     exprs = [r.pick(pool) for _ in range(r.randrange(0, 5))]
+    if r.chance(0.2):
+        # as typed into a form: blanks or a tab around the expression text (python's eval does not mind them)
+        pad = lambda t: r.pick([' ', '  ', '\t', '']) + t + r.pick([' ', '\t', ''])  # noqa
+        exprs = [pad(e) for e in exprs]
+        if cond != '':
+            cond = pad(cond)
+        out.count('padded_expression_cases')
     args = {'fire_count': str(fc), 'fire_period': '0'}
     if cond != '' or r.chance(0.5):
         args['condition'] = cond
